@@ -170,53 +170,10 @@ func runC11(c *mon.Ctx) {
 		}
 		for k := 0; k < c.Scale(48, 960); k++ {
 			sr := c.Rand(fmt.Sprintf("v1-ancestors-%s-%d", ver, k))
-			s, trunk := newSim(sr, ver)
-			var members []string
-			for _, u := range s.users[1:] {
-				if s.membership(trunk, u) == "join" {
-					members = append(members, u)
-				}
-			}
-			if len(members) == 0 {
-				c.Count("v1_ancestor_scenarios_skipped_nobody_joined")
+			_, sets, auth, victim, skipped := v1AncestorScenario(sr, ver)
+			if skipped != "" {
+				c.Count(skipped)
 				continue
-			}
-			creator, victim := s.users[0], members[0]
-			for _, u := range members {
-				// somebody the creator can kick
-				if _, ok := s.propose(trunk.clone(), "m.room.member", strp(u), creator, ref.O("membership", ref.S("leave")), false); ok {
-					victim = u
-					break
-				}
-			}
-			b1, b2 := trunk.clone(), trunk.clone()
-			// (the kick lies deeper than the renames of the other branch, so that it is the last candidate tried)
-			s.propose(b1, "m.room.topic", strp(""), creator, ref.O("topic", ref.S("one")), false)
-			s.propose(b1, "m.room.topic", strp(""), creator, ref.O("topic", ref.S("two")), false)
-			s.propose(b1, "m.room.topic", strp(""), creator, ref.O("topic", ref.S("three")), false)
-			if _, ok := s.propose(b1, "m.room.member", strp(victim), creator, ref.O("membership", ref.S("leave")), false); !ok {
-				c.Count("v1_ancestor_scenarios_skipped_kick_refused")
-				continue
-			}
-			s.propose(b1, "m.room.member", strp(creator), creator, ref.O("membership", ref.S("join"), "displayname", ref.S("one")), false)
-			s.propose(b2, "m.room.member", strp(creator), creator, ref.O("membership", ref.S("join"), "displayname", ref.S("two")), false)
-			s.propose(b2, "m.room.member", strp(victim), victim, ref.O("membership", ref.S("join"), "displayname", ref.S("renamed")), false)
-			sets := [][]gmsl.PDU{b1.list(), b2.list()}
-			var auth []gmsl.PDU
-			for _, key := range []stKey{{"m.room.create", ""}, {"m.room.power_levels", ""}, {"m.room.join_rules", ""}, {"m.room.member", creator}, {"m.room.member", victim}} {
-				p := trunk.state[key]
-				if key.Key == creator && key.Type == "m.room.member" {
-					// ... or, for the kicker's own key, one of the two candidates themselves (which may well be the winner)
-					switch sr.Intn(3) {
-					case 1:
-						p = b1.state[key]
-					case 2:
-						p = b2.state[key]
-					}
-				}
-				if p != nil {
-					auth = append(auth, p)
-				}
 			}
 			c.Case("v1-ancestor-auth-events:"+string(ver), map[string]any{"version": ver, "kicked": victim}, func() {
 				c.Nontrivial(fmt.Sprintf("v1anc|%s|%d", ver, k))
@@ -532,6 +489,39 @@ func runC11(c *mon.Ctx) {
 						}
 					}
 				}
+				if t.StateRes != 1 {
+					// ... and all three lists as windows of one array, in each of the six layouts: nothing is written behind
+					// the end of one of them into the next
+					b2 := gmsl.ResolveStateConflictsV2(conf, unconf, authList, userIDForSender, noRej)
+					lists := map[string][]gmsl.PDU{"conflicted": conf, "unconflicted": unconf, "auth": authList}
+					for _, layout := range [][3]string{{"auth", "conflicted", "unconflicted"}, {"auth", "unconflicted", "conflicted"}, {"conflicted", "auth", "unconflicted"},
+						{"conflicted", "unconflicted", "auth"}, {"unconflicted", "auth", "conflicted"}, {"unconflicted", "conflicted", "auth"}} {
+						buf := make([]gmsl.PDU, 0, len(conf)+len(unconf)+len(authList))
+						win := map[string][]gmsl.PDU{}
+						for _, n := range layout {
+							start := len(buf)
+							buf = append(buf, lists[n]...)
+							win[n] = buf[start:len(buf)] // (capacity reaches to the end of the buffer, as slicing gives it)
+						}
+						snapshot := append([]gmsl.PDU{}, buf...)
+						got := gmsl.ResolveStateConflictsV2(win["conflicted"], win["unconflicted"], win["auth"], userIDForSender, noRej)
+						c.Count("presentation|deprecated-v2-one-buffer")
+						if resultKey(got) != resultKey(b2) {
+							c.Failf(fmt.Sprintf("order-dependence:alg%d:deprecated-ResolveStateConflictsV2:shared-array", t.StateRes), "v%s: ResolveStateConflictsV2 returns a different state when the three lists are windows of one array laid out %v\n base: %v\n now:  %v", ver, layout, short(idsOf(b2)), short(idsOf(got)))
+							break
+						}
+						over := false
+						for i := range snapshot {
+							if buf[i] != snapshot[i] {
+								over = true
+							}
+						}
+						if over {
+							c.Failf(fmt.Sprintf("order-dependence:alg%d:deprecated-ResolveStateConflictsV2:callers-list-overwritten", t.StateRes), "v%s: ResolveStateConflictsV2 overwrote the caller's lists (one array laid out %v)", ver, layout)
+							break
+						}
+					}
+				}
 				// the smallest room: every state set is just the create event, nothing in the auth chain
 				{
 					only := []gmsl.PDU{sc.s.create}
@@ -710,4 +700,57 @@ func splitLikeCaller(flat []gmsl.PDU) (conf, unconf []gmsl.PDU) {
 		}
 	}
 	return
+}
+
+// v1AncestorScenario builds a version-1-algorithm room with a kick on one branch against renames on the other and, as
+// auth events, the pre-fork events (one per state key, the keys in conflict included; for the kicker's own key
+// sometimes one of the two candidates).
+func v1AncestorScenario(sr *gen.Rand, ver gmsl.RoomVersion) (*sim, [][]gmsl.PDU, []gmsl.PDU, string, string) {
+	s, trunk := newSim(sr, ver)
+	var members []string
+	for _, u := range s.users[1:] {
+		if s.membership(trunk, u) == "join" {
+			members = append(members, u)
+		}
+	}
+	if len(members) == 0 {
+		return nil, nil, nil, "", "v1_ancestor_scenarios_skipped_nobody_joined"
+	}
+	creator, victim := s.users[0], members[0]
+	for _, u := range members {
+		// somebody the creator can kick
+		if _, ok := s.propose(trunk.clone(), "m.room.member", strp(u), creator, ref.O("membership", ref.S("leave")), false); ok {
+			victim = u
+			break
+		}
+	}
+	b1, b2 := trunk.clone(), trunk.clone()
+	// (the kick lies deeper than the renames of the other branch, so that it is the last candidate tried)
+	s.propose(b1, "m.room.topic", strp(""), creator, ref.O("topic", ref.S("one")), false)
+	s.propose(b1, "m.room.topic", strp(""), creator, ref.O("topic", ref.S("two")), false)
+	s.propose(b1, "m.room.topic", strp(""), creator, ref.O("topic", ref.S("three")), false)
+	if _, ok := s.propose(b1, "m.room.member", strp(victim), creator, ref.O("membership", ref.S("leave")), false); !ok {
+		return nil, nil, nil, "", "v1_ancestor_scenarios_skipped_kick_refused"
+	}
+	s.propose(b1, "m.room.member", strp(creator), creator, ref.O("membership", ref.S("join"), "displayname", ref.S("one")), false)
+	s.propose(b2, "m.room.member", strp(creator), creator, ref.O("membership", ref.S("join"), "displayname", ref.S("two")), false)
+	s.propose(b2, "m.room.member", strp(victim), victim, ref.O("membership", ref.S("join"), "displayname", ref.S("renamed")), false)
+	sets := [][]gmsl.PDU{b1.list(), b2.list()}
+	var auth []gmsl.PDU
+	for _, key := range []stKey{{"m.room.create", ""}, {"m.room.power_levels", ""}, {"m.room.join_rules", ""}, {"m.room.member", creator}, {"m.room.member", victim}} {
+		p := trunk.state[key]
+		if key.Key == creator && key.Type == "m.room.member" {
+			// ... or, for the kicker's own key, one of the two candidates themselves (which may well be the winner)
+			switch sr.Intn(3) {
+			case 1:
+				p = b1.state[key]
+			case 2:
+				p = b2.state[key]
+			}
+		}
+		if p != nil {
+			auth = append(auth, p)
+		}
+	}
+	return s, sets, auth, victim, ""
 }
